@@ -139,6 +139,14 @@ Section Shuffle.
     if negb (length s =? length ss)%nat then AssertFail
     else bind (seq_res (map (mix_card s ss) (seq 0 (length s)))) (fun l => Ret (firstn max_cards l)).
 
+  (* the call as it is made: the result object s2 has previous content `old`; the code does s2.clear() and then
+     one bounded push per card (TMCG_Stack::push drops cards beyond TMCG_MAX_CARDS) *)
+  Definition stack_push {A} (st : list A) (x : A) : list A := if (length st <? max_cards)%nat then st ++ [x] else st.
+  Definition stack_clear {A} (st : list A) : list A := [].
+  Definition mix_into (old : list card) (s : list card) (ss : list (N * secret)) : res (list card) :=
+    if negb (length s =? length ss)%nat then AssertFail
+    else bind (seq_res (map (mix_card s ss) (seq 0 (length s)))) (fun l => Ret (fold_left stack_push l (stack_clear old))).
+
   (* entry i of the glued secret *)
   Definition glue_entry (sigma pi : list (N * secret)) (i : nat) : res (N * secret) :=
     let p := find_position sigma (N.of_nat i) in
@@ -163,6 +171,7 @@ Definition vmask (p g h : Z) (c : Z * Z) (r : Z) : Z * Z :=
   ((powm g r p * fst c) mod p, (powm h r p * snd c) mod p)%Z.
 Definition vadd (q : Z) (r1 r2 : Z) : Z := ((r1 + r2) mod q)%Z.
 Definition vmix (p g h : Z) := mix (Z * Z) Z (vmask p g h).
+Definition vmix_into (p g h : Z) := mix_into (Z * Z) Z (vmask p g h).
 Definition vglue (q : Z) := glue Z (vadd q).
 
 (* QR encoding, one matrix entry: z' = z r^2 y^b mod m; secrets (r, b) are combined as
